@@ -12,6 +12,11 @@
 //!      returns exactly the reference result: the octets themselves for formats without names,
 //!      the decompressed form for formats with names (SRV: refusing a compressed target is
 //!      tolerated, RFC 2782 forbids compressing it; a wrong expansion is not).
+//!  (C) the same read check in messages LONGER than 256 octets: a name at offset T in {255, 256,
+//!      257, 511, 512, 513, 768, 1024, 15872} (pointers to multiples of 256 have a 0x00 low octet,
+//!      which looks like a null label) and a chained name ("sub" + pointer to T) 256 octets
+//!      later; every layout with names (NS.., MX, SOA, MINFO, CH A, SRV) x names that are bare
+//!      pointers / label + pointer to either of them, plain, or pointers one octet off.
 //! Which error is returned is not constrained.  The write -> read round trip of C18 is NOT checked here.
 use quandary::class::Class;
 use quandary::rr::{Rdata, Type};
@@ -259,6 +264,41 @@ fn main() {
             }
         }
     }
-    done(cases, &format!("{} class/type pairs (all 20 known, known types in other classes, unknown types); validate: {} RDATA strings (all of <= 4 octets over 9 symbols; exemplars of every layout, every truncation, one-octet extensions, 63/64 255/256 65535 limits); read: {} RDATA regions in a message with two earlier names x 3 continuations x 6-10 cursor/RDLENGTH choices, plus 5 messages x 21 cursors up to usize::MAX x 14 RDLENGTHs (known pairs: {} accepting validates, {} successful reads)", pairs.len(), universe_len, n_regions,
+    // ---- (C) pointer targets beyond offset 255 (low octet of the pointer 0x00, 0x01, 0xff)
+    let mut far_regions = 0usize;
+    for t in [255usize, 256, 257, 511, 512, 513, 768, 1024, 0x3e00] {
+        let ptr = |to: usize| vec![0xc0 | (to >> 8) as u8, to as u8];
+        let mut far = vec![0xabu8; t];                         // filler: 0xab is no label type, a pointer into it never decodes
+        far[4] = 0;
+        far.extend([7, b'e', b'x', b'a', b'm', b'p', b'l', b'e', 3, b'c', b'o', b'm', 0]);
+        far.resize(t + 256, 0xab);
+        far.extend([3, b's', b'u', b'b']); far.extend(ptr(t));             // "sub" + pointer to T, at T + 256
+        let at = far.len();
+        let names: Vec<Vec<u8>> = vec![
+            ptr(t), [vec![3, b'n', b's', b'1'], ptr(t)].concat(), ptr(t + 256), [vec![4, b'm', b'a', b'i', b'l'], ptr(t + 256)].concat(),
+            vec![1, b'n', 0], vec![0], ptr(t + 8), [vec![1, b'n'], ptr(t + 8)].concat(),       // T + 8: the label "com"
+            ptr(t + 1), ptr(t - 1), [vec![1, b'n'], ptr(t + 255)].concat(), ptr(at),            // into a label / the filler / itself
+        ];
+        let mut regions: Vec<Vec<u8>> = Vec::new();
+        let mut seen_layouts: Vec<&'static [Field]> = Vec::new();
+        for &(c, ty) in &pairs {
+            let Some(l) = layout(c, ty) else { continue };
+            if !l.contains(&Field::Name) || seen_layouts.contains(&l) { continue; }
+            seen_layouts.push(l);
+            regions.extend(exemplars(c, ty, &names));
+        }
+        regions.sort(); regions.dedup();
+        far_regions += regions.len();
+        for region in &regions {
+            for suffix in [&[][..], &[0u8][..]] {
+                let mut msg = far.clone(); msg.extend_from_slice(region); msg.extend_from_slice(suffix);
+                let n = region.len();
+                for (cursor, rdlength) in [(at, n), (at, n + 1), (at, n.saturating_sub(1)), (at, n.saturating_sub(2))] {
+                    for &(c, ty) in &pairs { check_read(c, ty, &msg, cursor, rdlength as u16, &mut cases); }
+                }
+            }
+        }
+    }
+    done(cases, &format!("{} class/type pairs (all 20 known, known types in other classes, unknown types); validate: {} RDATA strings (all of <= 4 octets over 9 symbols; exemplars of every layout, every truncation, one-octet extensions, 63/64 255/256 65535 limits); read: {} RDATA regions in a message with two earlier names x 3 continuations x 6-10 cursor/RDLENGTH choices, plus 5 messages x 21 cursors up to usize::MAX x 14 RDLENGTHs; long messages: a name at offset T in {{255,256,257,511,512,513,768,1024,15872}} and a chained name at T+256, {} RDATA regions (every layout with names x 12 name shapes: pointer / label+pointer to T, T+256, T+8, plain, pointers one off, to itself) x 2 continuations x RDLENGTH exact/+1/-1/-2 (known pairs: {} accepting validates, {} successful reads)", pairs.len(), universe_len, n_regions, far_regions,
         ACCEPTED.load(std::sync::atomic::Ordering::Relaxed), READ_OK.load(std::sync::atomic::Ordering::Relaxed)))
 }
